@@ -187,6 +187,10 @@ def run(ctx, chk):
                        sample={"config": c, "reassembly_overflow": cell.result})
                 # ... and must leave the group as it was: otherwise the following fragments are
                 # accepted and a message with a hole (a silently truncated payload) is delivered
+                if cell.capacity[0][0] == "size_limit":
+                    # an explicit limit must be the no-alloc buffer's capacity, or the builds disagree on acceptance
+                    chk.ob(cell.capacity[0][1] == 384, "C18/fsm/size-limit/%s/%s" % (c, cell.capacity[0][1]),
+                           "%s: reassembled payloads above %s bytes are rejected; the no-alloc capacity is 384" % (c, cell.capacity[0][1]))
                 same = cell.post_sid == "sid" and cell.post_s == "s" and cell.post_D == "D" and not cell.stores
                 chk.ob(same, "C18/fsm/capacity-state/%s,%s,%s/%d" % (cell.post_sid, cell.post_s, cell.post_D, len(cell.stores)),
                        "%s: after a reassembly buffer overflow the parser state is (%s, %s, %s): the rest of the group will be accepted and delivered without the rejected fragment" % (c, cell.post_sid, cell.post_s, cell.post_D))
